@@ -145,7 +145,9 @@ func H_C12_HeaderDamage() {
 	switch mode {
 	case 0, 2:
 		skip := mode == 2
-		r, err := NewFileReader(ReaderPath(p), ReaderBufferSizeBytes(64))
+		// small read buffers too: the damaged header may straddle a refill
+		rbuf := []int{64, 5, 12}[vrt.Choose("rbuf", 3)]
+		r, err := NewFileReader(ReaderPath(p), ReaderBufferSizeBytes(rbuf))
 		vrt.Assert(err == nil && r.Open() == nil, "damage/open-no-error")
 		for i := 0; i < victim; i++ {
 			got, err := r.ReadNext()
@@ -166,6 +168,8 @@ func H_C12_HeaderDamage() {
 		} else {
 			_, err = r.ReadNext()
 			vrt.Assert(err != nil, "damage/sequential-read-of-damaged-record-fails")
+			// (which error is not prescribed: on the unchanged tree a length byte altered so that the header runs
+			// into the end of the file is reported with an error that wraps io.EOF)
 		}
 		vrt.TraceBool("seq.err", err != nil)
 		r.Close()
